@@ -287,6 +287,34 @@ def mentions_param(v, name):
     return sym.contains(v, lambda n: n == ("param", name))
 
 
+def increment_of(w):
+    """value - old of a write event as a rational normal form (None if not arithmetic): `x += y` and `x = x + y` give y."""
+    try:
+        old = w.old if w.old is not None else ("fld", w.obj, w.field, 0)
+        return sym.to_rat(("-", w.value, old))
+    except Exception:
+        return None
+
+
+def increments_by(w, amount):
+    d = increment_of(w)
+    if d is None:
+        return False
+    try:
+        return d.equals(sym.to_rat(amount))
+    except Exception:
+        return False
+
+
+def loop_conditions(e):
+    """Conditions under which an event inside a loop body runs, relative to the loop's entry: comprehension filters and inner `if`s alike."""
+    if not e.loops:
+        return []
+    loop = e.loops[-1]
+    entry = set((canon(a), p) for a, p in plain(loop.guard0)) - set((canon(a), p) for a, p in loop.filter)
+    return [(a, p) for a, p in plain(e.guard) if (canon(a), p) not in entry]
+
+
 def where(ev):
     return ev.where
 
